@@ -27,6 +27,14 @@ def configs(tier):
         # two different exception types in one stream
         out.append(dict(entry='prefetch', n=n, w=1, b=b, fail_fn={0: 'FilterException', 2: 'ValueError'}, catch=True))
         out.append(dict(entry='prefetch', n=n, w=1, b=b, fail_fn={1: 'ValueError', 2: 'FilterException'}, catch=True))
+    # key iteration through the single-thread path with catching
+    for b in (1, 2):
+        for F in subsets(n):
+            for catch in (True, ['ValueError']):
+                out.append(dict(entry='prefetch', n=n, w=1, b=b, mode='items', fail_fn={i: 'FilterException' for i in F},
+                                catch=catch))
+        out.append(dict(entry='prefetch', n=n, w=1, b=b, mode='items', fail_fn={0: 'FilterException', 1: 'ValueError'},
+                        catch=True))
     # pool path
     for backend in ['t', 'mp', 'dill_mp', 'multiprocessing', 'concurrent_mp']:
         shapes = [(2, 2)] + ([(2, 3)] if backend == 't' or tier == 'thorough' else [])
@@ -68,6 +76,12 @@ def run(tier):
     bound = 1 if tier == 'quick' else 2
     _e2.run_matrix('C06', 'oracle_values', [(c, 'L', bound) for c in lcfgs], res,
                    f'mode L, every source line, preemption bound {bound}')
+    bcfgs = [c for c in cfgs if c.get('backend', 't') == 't' and c['n'] <= 3 and c['w'] <= 2 and c['b'] <= 2
+             and len(c.get('consumers', [1])) == 1 and c.get('mode') != 'items']
+    if tier == 'quick':
+        bcfgs = [c for c in bcfgs if len(c.get('fail_fn') or {}) <= 1 and c.get('catch') in (None, True)]
+    _e2.run_matrix('C06', 'oracle_values', [(c, 'B', 2) for c in bcfgs], res,
+                   'mode B: visible operations, no reduction, preemption bound 2', cap=60000)
     res.coverage['preemption_bound_completed'] = bound
     return _e2.finish(res, 5000)
 
